@@ -65,6 +65,8 @@ def cv_case(draw, tier, estimators=("Lin", "Proba"), fdrs=(0.31,), weak=False):
         "sweep_before": draw(st.sampled_from([None, None, None, "fewer", "more"])),
         # brew is handed ONE already trained model (not a list of fold models): it serves as the starting point of every fold
         "single_trained": draw(st.sampled_from([False, False, False, False, True])),
+        # training fails in some folds only (estimator LinFailSome, see recorder): positions of 1..folds-1 marker decoys
+        "fail_marks": draw(st.sampled_from([None, None, None, None, None, "some"])) and draw(st.lists(st.integers(0, 10**6), min_size=1, max_size=folds - 1)),
     }
 
 
@@ -81,6 +83,7 @@ ESTIMATORS = {
     "Const": recorder.Const,
     "Invert": recorder.Invert,
     "Memo": recorder.Memo,
+    "LinFailSome": recorder.LinFailSome,
 }
 
 
@@ -158,6 +161,10 @@ def run_brew(case, tmp, train_fdr=0.23, override=True, max_iter=3, estimator=Non
         if model is None:
             est_cls = ESTIMATORS[case["est"]] if estimator is None else estimator
             est = est_cls(log=logname)
+            if case.get("fail_marks") and estimator is None and case["est"] in ("Lin", "Proba"):
+                # markers = decoy rows of the first file; a fold holding one of them out fails to train
+                decoys = np.flatnonzero(~np.asarray(metas[0]["is_target"], dtype=bool))
+                est = recorder.LinFailSome(log=logname, markers=tuple(sorted({int(decoys[m % len(decoys)]) for m in case["fail_marks"]})))
             # a recording (identity) scaler: the scaler is part of a fold's model and is fitted on that fold's training rows
             model = recorder.make_model(est, train_fdr=train_fdr, max_iter=max_iter, override=override, shuffle=True,
                                         scaler=recorder.RecScaler(identity=True))
